@@ -181,7 +181,7 @@ def build_rep(kind, o, rep):
 
 def foreign_values(G, kind):
     other = G.Point(1, 2, 3) if kind != "P" else G.Line(G.Point(0, 0, 0), G.Vector(1, 0, 0))
-    return [None, 3, "x", (1, 2, 3), 2.5, other]
+    return [None, 3, "x", (1, 2, 3), 2.5, other, [1, 2, 3], {}, set(), object()]
 
 
 def check(case, ctx):
